@@ -51,7 +51,8 @@ COMPONENTS = {
 }
 
 OPS = ["set_weights", "set_means", "set_variances", "set_floor", "em_step", "em_step",
-       "deepcopy", "pickle", "hdf5_from", "hdf5_load"]
+       "deepcopy", "pickle", "hdf5_from", "hdf5_load", "nudge_variances", "nudge_floor",
+       "em_many"]
 
 
 def setup():
@@ -98,6 +99,19 @@ def gen_case(rng, tier):
                 o["chunks"] = random_composition(rng, n)
                 o["sched"] = gen_sched(rng)
             ops.append(o)
+        elif name == "nudge_variances":
+            # a long-lived machine whose variances drift in tiny steps (training near
+            # convergence, incremental adaptation): every step is a public setter call
+            ops.append({"op": name, "eps": rng.choice([1e-9, 1e-7, 1e-6, 5e-6, 1e-4]),
+                        "times": rng.randint(1, 40), "seed": rng.randint(0, 10 ** 6)})
+        elif name == "nudge_floor":
+            ops.append({"op": name, "eps": rng.choice([1e-9, 1e-7, 1e-6, 5e-6, 1e-4]),
+                        "times": rng.randint(1, 10)})
+        elif name == "em_many":
+            n = rng.randint(max(4, 2 * c), 20)
+            X = sig6(means[rs.randint(0, c, size=n)] + rs.randn(n, d) * scale * 1.2)
+            ops.append({"op": name, "X": L(X), "steps": rng.randint(15, 60),
+                        "uw": rng.random() < 0.5})
         elif name == "hdf5_from":
             ops.append({"op": name, "by": rng.choice(["path", "file"])})
         elif name == "hdf5_load":
@@ -235,6 +249,25 @@ def run_case(case, replay=None):
                         else:
                             m.fit(X)
                             rec.probe("em_step_numpy")
+                    elif name == "nudge_variances":
+                        nrs = np.random.RandomState(o["seed"])
+                        for _ in range(o["times"]):
+                            v = np.array(m.variances, float)
+                            m.variances = v * (1.0 + o["eps"] * nrs.choice([-1.0, 1.0], size=v.shape))
+                        rec.probe("tiny_variance_updates")
+                    elif name == "nudge_floor":
+                        for _ in range(o["times"]):
+                            v = np.array(m.variances, float)
+                            m.variance_thresholds = v * (1.0 + o["eps"])
+                        rec.probe("tiny_floor_raises")
+                    elif name == "em_many":
+                        nontrivial = True
+                        m.update_means, m.update_variances, m.update_weights = True, True, o["uw"]
+                        m.max_fitting_steps = o["steps"]
+                        m.convergence_threshold = None
+                        m.fit(A(o["X"]))
+                        m.convergence_threshold = 1e-5
+                        rec.probe("em_many_steps")
                     elif name == "deepcopy":
                         nontrivial = True
                         m = copy.deepcopy(m)
